@@ -12,6 +12,9 @@ Proof.
   - injection H as ->. apply Nat.eqb_refl.
 Qed.
 
+Lemma rcode_eqb_spec a b : rcode_eqb a b = true <-> a = b.
+Proof. apply pair_eqb_spec; apply option_eqb_spec; apply Nat.eqb_eq. Qed.
+
 Lemma qitem_eqb_spec a b : qitem_eqb a b = true <-> a = b.
 Proof.
   destruct a as [x|x|x|w i s o t], b as [y|y|y|w' i' s' o' t']; simpl; split; intro H; try discriminate.
@@ -19,10 +22,10 @@ Proof.
   all: try (injection H as ->; apply Nat.eqb_refl).
   - apply andb_true_iff in H as [H H5]. apply andb_true_iff in H as [H H4]. apply andb_true_iff in H as [H H3].
     apply andb_true_iff in H as [H1 H2].
-    apply Nat.eqb_eq in H1, H2, H3. apply (option_eqb_spec _ Nat.eqb_eq) in H4. apply tstamp_eqb_spec in H5.
+    apply Nat.eqb_eq in H1, H2, H3. apply rcode_eqb_spec in H4. apply tstamp_eqb_spec in H5.
     subst. reflexivity.
   - injection H as -> -> -> -> ->. rewrite !Nat.eqb_refl. simpl.
-    rewrite (proj2 (option_eqb_spec _ Nat.eqb_eq _ _) eq_refl). apply tstamp_eqb_spec. reflexivity.
+    rewrite (proj2 (rcode_eqb_spec _ _) eq_refl). apply tstamp_eqb_spec. reflexivity.
 Qed.
 
 Lemma cev_eqb_spec a b : cev_eqb a b = true <-> a = b.
@@ -36,10 +39,10 @@ Proof.
   all: try (injection H as ->; apply Nat.eqb_refl).
   - apply andb_true_iff in H as [H H6]. apply andb_true_iff in H as [H H5]. apply andb_true_iff in H as [H H4].
     apply andb_true_iff in H as [H H3]. apply andb_true_iff in H as [H1 H2].
-    apply Nat.eqb_eq in H1, H2, H3. apply (option_eqb_spec _ Nat.eqb_eq) in H4.
+    apply Nat.eqb_eq in H1, H2, H3. apply rcode_eqb_spec in H4.
     apply tstamp_eqb_spec in H5. apply (proj1 (bool_eqb_spec _ _)) in H6. subst. reflexivity.
   - injection H as -> -> -> -> -> ->. rewrite !Nat.eqb_refl. simpl.
-    rewrite (proj2 (option_eqb_spec _ Nat.eqb_eq _ _) eq_refl). simpl.
+    rewrite (proj2 (rcode_eqb_spec _ _) eq_refl). simpl.
     rewrite (proj2 (tstamp_eqb_spec _ _) eq_refl), (proj2 (bool_eqb_spec _ _) eq_refl). reflexivity.
 Qed.
 
@@ -78,7 +81,7 @@ Lemma ev3_eqb_sound a b : ev3_eqb a b = true -> a = b.
 Proof.
   destruct a as [[[a1 a2] a3] a4], b as [[[b1 b2] b3] b4]. unfold ev3_eqb. simpl. intro H.
   apply andb_true_iff in H as [H H4]. apply andb_true_iff in H as [H H3]. apply andb_true_iff in H as [H1 H2].
-  apply Nat.eqb_eq in H1, H2. apply (option_eqb_spec _ Nat.eqb_eq) in H3. apply tstamp_eqb_spec in H4.
+  apply Nat.eqb_eq in H1, H2. apply rcode_eqb_spec in H3. apply tstamp_eqb_spec in H4.
   subst. reflexivity.
 Qed.
 
@@ -109,7 +112,8 @@ Proof.
   - intro Hr. rewrite Hr in H7. apply (list_eqb_spec _ Nat.eqb_eq) in H7. rewrite H7. unfold stops_expected. destruct (main_stops (o_trace o)); reflexivity.
 Qed.
 
-Lemma stream_worker_sound base raised tr w s : stream_worker_okb base raised tr w s = true -> StreamWorker base raised tr w s.
+Lemma stream_worker_sound routes base raised tr w s :
+  stream_worker_okb routes base raised tr w s = true -> StreamWorker routes base raised tr w s.
 Proof.
   unfold stream_worker_okb, StreamWorker. intro H.
   apply andb_true_iff in H as [H H3]. apply andb_true_iff in H as [H1 H2]. split; [|split].
@@ -189,7 +193,7 @@ Theorem stream_each_once i sched : let c := sreach i sched in
   spawns (s_log c) = seq 0 (length (s_workers c))
   /\ length (s_workers c) <= started (length (si_suites i)) (si_mt_raise i)
   /\ forall w todo, nth_error (s_workers c) w = Some todo ->
-       exists s, nth_error (si_suites i) w = Some s /\ fw w (putsq (s_log c)) ++ todo = worker_puts w (si_base i) s.
+       exists s, nth_error (si_suites i) w = Some s /\ fw w (putsq (s_log c)) ++ todo = worker_puts (sroute i w) w (si_base i) s.
 Proof.
   simpl. pose proof (sreach_inv i sched) as HI. split; [apply (sv_spawns i _ HI)|]. split; [apply (sv_le i _ HI)|].
   apply (sv_workers i _ HI).
@@ -266,7 +270,7 @@ Qed.
 Theorem stream_delivery i sched w s : let c := sreach i sched in
   nth_error (si_suites i) w = Some s -> w < length (s_workers c) ->
   (forall x, In x (delivered w (s_log c)) -> has_ts (snd (fst x)) = true)
-  /\ exists rest, map to3 (delivered w (s_log c)) ++ rest = ev_of (emits w (si_base i) s)
+  /\ exists rest, map to3 (delivered w (s_log c)) ++ rest = ev_of (emits (sroute i w) w (si_base i) s)
        /\ (s_main c = SMDone -> s_raised c = false -> rest = []).
 Proof.
   simpl. intros Hs Hw. pose proof (sreach_inv i sched) as HI. set (c := sreach i sched) in *.
@@ -274,11 +278,11 @@ Proof.
   destruct (sv_workers i c HI w todo En) as (s' & Hs' & E). rewrite Hs in Hs'. injection Hs' as <-.
   assert (Hrest : map to3 (delivered w (s_log c))
                   ++ (ev_of (fw w (pend_status c)) ++ ev_of (fw w (s_queue c)) ++ ev_of todo)
-                  = ev_of (emits w (si_base i) s)).
+                  = ev_of (emits (sroute i w) w (si_base i) s)).
   { rewrite app_assoc, (sv_deliv i c HI w), <- ev_of_worker_puts, <- E, ev_of_app, <- (sv_fifo i c HI w), fw_app,
       ev_of_app, <- app_assoc. reflexivity. }
   split.
-  - intros x Hx. pose proof (prefix_has_ts _ _ _ Hrest (emits_has_ts w (si_base i) s)) as Ht.
+  - intros x Hx. pose proof (prefix_has_ts _ _ _ Hrest (emits_has_ts (sroute i w) w (si_base i) s)) as Ht.
     rewrite forallb_forall in Ht. apply Ht. exact Hx.
   - exists (ev_of (fw w (pend_status c)) ++ ev_of (fw w (s_queue c)) ++ ev_of todo). split.
     + exact Hrest.
@@ -290,17 +294,17 @@ Proof.
       assert (Htodo : todo = []) by (eapply popped_done; eauto).
       subst todo. rewrite app_nil_r in E.
       assert (Hq : fw w (s_queue c) = []).
-      { apply (stop_is_last w (si_base i) s (fw w (gotten (s_log c)))).
+      { apply (stop_is_last (sroute i w) w (si_base i) s (fw w (gotten (s_log c)))).
         - rewrite <- fw_app, (sv_fifo i c HI w). exact E.
         - apply filter_In. split; [exact Hm | simpl; apply Nat.eqb_refl]. }
       unfold pend_status. rewrite Em, Hq. reflexivity.
 Qed.
 
 (* ---- a broken runner (stream): what worker w puts on the queue when its run() raises ---- *)
-Theorem stream_broken_runner w pre rest : (forall x, In x pre -> x <> SRaise) ->
-  emits w false (pre ++ SRaise :: rest)
-    = emits w false pre ++ [QStatus w br_id st_inprogress None TNow; QStatus w br_id st_fail None TNow]
-  /\ emits w true (pre ++ SRaise :: rest) = emits w true pre.
+Theorem stream_broken_runner rt w pre rest : (forall x, In x pre -> x <> SRaise) ->
+  emits rt w false (pre ++ SRaise :: rest)
+    = emits rt w false pre ++ [QStatus w br_id st_inprogress (rt, None) TNow; QStatus w br_id st_fail (rt, None) TNow]
+  /\ emits rt w true (pre ++ SRaise :: rest) = emits rt w true pre.
 Proof.
   induction pre as [|[id st own a|] pre IH]; intro H; simpl.
   - split; reflexivity.
